@@ -270,3 +270,69 @@ ROUND4_MUTANTS = [
 ]
 TWINS = TWINS + ROUND4_TWINS
 MUTANTS = MUTANTS + ROUND4_MUTANTS
+
+# ---------------------------------------------------------------------------------------------------------------------
+# round 5 (stress of R8.7 - R8.10 with fresh maintainer-style refactorings): the shapes that tripped a rule - a pickle
+# state filled by a loop / reached through another method, super() or a module-level helper / a bound reader handed to
+# map(), the wrapped list handed whole to a call (*self.dicts), sum(lists, []) - and a defect planted in each shape
+_CLS_IMM = "class ImmutableMultiDictMixin(ImmutableDictMixin[K, V]):\n"
+_KEYS_IMPL = "        return set(k for d in self.dicts for k in d)"
+_GETLIST5 = "        rv = []\n        for d in self.dicts:\n            rv.extend(d.getlist(key, type))  # type: ignore[arg-type]\n        return rv"
+_GS = "    def __getstate__(self) -> t.Any:\n"
+_OMD_TAIL = "\n    def __getstate__(self) -> t.Any:\n        return list(self.items(multi=True))\n"
+_OMD_RX = "    def __reduce_ex__(self, protocol: t.SupportsIndex) -> t.Any:\n"
+
+ROUND5_TWINS = [
+    {"name": "getstate-filled-by-loop-over-lists", "edits": [(S, _MD_GETSTATE, _GS + "        state: dict[K, list[V]] = {}\n\n        for key, values in self.lists():\n            state[key] = values\n\n        return state\n")]},
+    {"name": "getstate-per-key-lists-extended", "edits": [(S, _MD_GETSTATE, _GS + "        state: dict[K, list[V]] = {}\n\n        for key, values in self.lists():\n            state.setdefault(key, []).extend(values)\n\n        return state\n")]},
+    {"name": "getstate-update-from-lists", "edits": [(S, _MD_GETSTATE, _GS + "        state: dict[K, list[V]] = {}\n        state.update(self.lists())\n        return state\n")]},
+    {"name": "getstate-keys-then-getlist-loop", "edits": [(S, _MD_GETSTATE, _GS + "        state = {}\n\n        for key in self:\n            state[key] = self.getlist(key)\n\n        return state\n")]},
+    {"name": "getstate-raw-items-through-super", "edits": [(S, _MD_GETSTATE, _GS + "        return dict(super().items())\n")]},
+    {"name": "getstate-zip-keys-map-bound-getlist", "edits": [(S, _MD_GETSTATE, _GS + "        keys = list(self)\n        return dict(zip(keys, map(self.getlist, keys)))\n")]},
+    {"name": "ordered-reduce-reuses-getstate", "edits": [(S, _OMD_REDUCE, _OMD_RX + "        return type(self), (self.__getstate__(),)\n" + _OMD_TAIL)]},
+    {"name": "ordered-reduce-pairs-appended-in-loop", "edits": [(S, _OMD_REDUCE, _OMD_RX + "        pairs = []\n\n        for key, value in self.items(multi=True):\n            pairs.append((key, value))\n\n        return type(self), (pairs,)\n" + _OMD_TAIL)]},
+    {"name": "ordered-reduce-walks-the-buckets", "edits": [(S, _OMD_REDUCE, _OMD_RX + "        pairs = []\n        ptr = self._first_bucket\n\n        while ptr is not None:\n            pairs.append((ptr.key, ptr.value))\n            ptr = ptr.next\n\n        return type(self), (pairs,)\n" + _OMD_TAIL)]},
+    {"name": "reduce-star-unpacked-pairs", "edits": [(M, _IMM_REDUCE, "        return type(self), ([*self.items(multi=True)],)  # type: ignore[attr-defined]\n")]},
+    {"name": "reduce-pairs-extended-into-local", "edits": [(M, _IMM_REDUCE, "        pairs: list[t.Any] = []\n        pairs.extend(self.items(multi=True))  # type: ignore[attr-defined]\n        return type(self), (pairs,)\n")]},
+    {"name": "reduce-through-module-level-helper", "edits": [(M, _IMM_REDUCE, "        return type(self), (_multi_items(self),)\n"), (M, _CLS_IMM, "def _multi_items(md: t.Any) -> list[tuple[t.Any, t.Any]]:\n    return list(md.items(multi=True))\n\n\n" + _CLS_IMM)]},
+    {"name": "reduce-module-helper-fills-a-list", "edits": [(M, _IMM_REDUCE, "        return type(self), (_multi_items(self),)\n"), (M, _CLS_IMM, "def _multi_items(md: t.Any) -> list[tuple[t.Any, t.Any]]:\n    out = []\n    for pair in md.items(multi=True):\n        out.append(pair)\n    return out\n\n\n" + _CLS_IMM)]},
+    {"name": "combined-contains-via-key-set-union-star", "edits": [(S, _CONTAINS, "        return key in self._keys_impl()"), (S, _KEYS_IMPL, "        return set().union(*self.dicts)")]},
+    {"name": "combined-getlist-sum-of-lists", "edits": [(S, _GETLIST5, "        return sum((d.getlist(key, type) for d in self.dicts), [])  # type: ignore[arg-type]")]},
+]
+ROUND5_MUTANTS = [
+    {"name": "shape:state-loop-stores-first-values", "expect": "R8.10", "edits": [(S, _MD_GETSTATE, _GS + "        state = {}\n\n        for key in self:\n            state[key] = [self[key]]\n\n        return state\n")]},
+    {"name": "shape:state-loop-pairs-stored-per-key", "expect": "R8.10", "edits": [(S, _MD_GETSTATE, _GS + "        state: dict[K, t.Any] = {}\n\n        for key, value in self.items(multi=True):\n            state[key] = [value]\n\n        return state\n")]},
+    {"name": "shape:state-loop-setdefault-keeps-first", "expect": "R8.10", "edits": [(S, _MD_GETSTATE, _GS + "        state: dict[K, t.Any] = {}\n\n        for key, value in self.items(multi=True):\n            state.setdefault(key, [value])\n\n        return state\n")]},
+    {"name": "shape:state-update-from-flat-items", "expect": "R8.10", "edits": [(S, _MD_GETSTATE, _GS + "        state: dict[K, t.Any] = {}\n        state.update(self.items())\n        return state\n")]},
+    {"name": "shape:super-items-is-the-flat-view", "expect": "R8.10", "edits": [(M, _IMM_REDUCE, "        return type(self), (list(super().items()),)  # type: ignore[misc]\n")]},
+    {"name": "shape:map-bound-get", "expect": "R8.10", "edits": [(S, _MD_GETSTATE, _GS + "        keys = list(self)\n        return dict(zip(keys, map(self.get, keys)))\n")]},
+    {"name": "shape:reused-getstate-is-flat", "expect": "R8.10", "edits": [(S, _OMD_REDUCE, _OMD_RX + "        return type(self), (self.__getstate__(),)\n\n    def __getstate__(self) -> t.Any:\n        return list(self.items())\n")]},
+    {"name": "shape:pairs-loop-over-flat-items", "expect": "R8.10", "edits": [(S, _OMD_REDUCE, _OMD_RX + "        pairs = []\n\n        for key, value in self.items():\n            pairs.append((key, value))\n\n        return type(self), (pairs,)\n" + _OMD_TAIL)]},
+    {"name": "shape:star-unpacked-flat-items", "expect": "R8.10", "edits": [(M, _IMM_REDUCE, "        return type(self), ([*self.items()],)  # type: ignore[attr-defined]\n")]},
+    {"name": "shape:module-helper-reads-flat", "expect": "R8.10", "edits": [(M, _IMM_REDUCE, "        return type(self), (_multi_items(self),)\n"), (M, _CLS_IMM, "def _multi_items(md: t.Any) -> list[tuple[t.Any, t.Any]]:\n    out = []\n    for pair in md.items():\n        out.append(pair)\n    return out\n\n\n" + _CLS_IMM)]},
+    {"name": "shape:key-set-union-of-first-dict-only", "expect": "R8.7", "edits": [(S, _KEYS_IMPL, "        return set().union(*self.dicts[:1])")]},
+    {"name": "shape:sum-of-lists-over-a-slice", "expect": "R8.7", "edits": [(S, _GETLIST5, "        return sum((d.getlist(key, type) for d in self.dicts[:1]), [])  # type: ignore[arg-type]")]},
+    {"name": "shape:sum-onto-a-wrapped-list", "expect": "R8.4", "edits": [(S, _GETLIST5, "        return sum((d.getlist(key, type) for d in self.dicts), self.dicts)  # type: ignore[arg-type]")]},
+]
+ROUND5_TWINS += [
+    {"name": "getstate-through-private-generator-helper", "edits": [(S, _MD_GETSTATE, _GS + "        return dict(self._iter_lists())\n\n    def _iter_lists(self) -> cabc.Iterator[tuple[K, list[V]]]:\n        for key, values in dict.items(self):  # type: ignore[assignment]\n            yield key, list(values)\n")]},
+    {"name": "getstate-raw-dict-calls-per-key", "edits": [(S, _MD_GETSTATE, _GS + "        state = {}\n        for key in dict.keys(self):\n            state[key] = list(dict.__getitem__(self, key))\n        return state\n")]},
+    {"name": "reduce-empty-guard-constant-state", "edits": [(M, _IMM_REDUCE, "        if not self:\n            return type(self), ([],)\n\n        return type(self), (list(self.items(multi=True)),)  # type: ignore[attr-defined]\n")]},
+    {"name": "ordered-reduce-and-getstate-share-a-private-loop", "edits": [(S, _OMD_REDUCE, _OMD_RX + "        return type(self), (self._all_pairs(),)\n\n    def __getstate__(self) -> t.Any:\n        return self._all_pairs()\n\n    def _all_pairs(self) -> list[tuple[K, V]]:\n        pairs = []\n        for pair in self.items(multi=True):\n            pairs.append(pair)\n        return pairs\n")]},
+]
+ROUND5_MUTANTS += [
+    {"name": "shape:generator-helper-yields-first-values", "expect": "R8.10", "edits": [(S, _MD_GETSTATE, _GS + "        return dict(self._iter_lists())\n\n    def _iter_lists(self) -> cabc.Iterator[tuple[K, list[V]]]:\n        for key in self:\n            yield key, [self[key]]\n")]},
+    {"name": "shape:raw-dict-keys-first-values", "expect": "R8.10", "edits": [(S, _MD_GETSTATE, _GS + "        state = {}\n        for key in dict.keys(self):\n            state[key] = [self[key]]\n        return state\n")]},
+    {"name": "shape:empty-guard-then-flat-state", "expect": "R8.10", "edits": [(M, _IMM_REDUCE, "        if not self:\n            return type(self), ([],)\n\n        return type(self), (list(self.items()),)  # type: ignore[attr-defined]\n")]},
+    {"name": "shape:shared-private-loop-over-flat-items", "expect": "R8.10", "edits": [(S, _OMD_REDUCE, _OMD_RX + "        return type(self), (self._all_pairs(),)\n\n    def __getstate__(self) -> t.Any:\n        return self._all_pairs()\n\n    def _all_pairs(self) -> list[tuple[K, V]]:\n        pairs = []\n        for pair in self.items():\n            pairs.append(pair)\n        return pairs\n")]},
+    {"name": "shape:constant-state-on-every-path", "expect": "R8.10", "edits": [(M, _IMM_REDUCE, "        return type(self), ([],)\n")]},
+]
+_HG5 = "        try:\n            rv = self._get_key(key)\n        except KeyError:\n            return default\n\n        if type is None:\n            return rv\n"
+_HG5_TAIL = "\n        if type is None:\n            return rv\n"
+ROUND5_TWINS.append({"name": "headers-get-membership-test-then-plain-lookup", "edits": [(H, _HG5, "        if key not in self:\n            return default\n\n        rv = self._get_key(key)\n" + _HG5_TAIL)]})
+ROUND5_MUTANTS += [
+    {"name": "shape:membership-then-lookup-after-a-removal", "expect": "R8.9", "edits": [(H, _HG5, "        if key not in self:\n            return default\n\n        self._list.pop()\n        rv = self._get_key(key)\n" + _HG5_TAIL)]},
+    {"name": "shape:membership-then-lookup-of-another-key", "expect": "R8.9", "edits": [(H, _HG5, "        if key not in self:\n            return default\n\n        rv = self._get_key(key.strip())\n" + _HG5_TAIL)]},
+]
+TWINS = TWINS + ROUND5_TWINS
+MUTANTS = MUTANTS + ROUND5_MUTANTS
